@@ -12,8 +12,8 @@
 //! inj    := kind m time payload                  kind%3: 0 handle_message_on(m) | 1 add_message_onto(m.out) | 2 ..(m.far)
 //!
 //! Output: 5 numbers per record
-//!   1 m stage now act   at_sim_start        2 m payload now act  handle_message     3 m id now act  first poll of task id
-//!   4 m id now act      task id resumed after its sleep           5 m 0 now act      at_sim_end
+//!   1 m stage now act   at_sim_start        2 m payload now act  handle_message     3 m id now act+2*inc  first poll of task id
+//!   4 m id now act+2*inc task id resumed after sleep          5 m 0 now act      at_sim_end
 //!   6 m now inc 0       reset (inc = resets so far)               7 m who x 0        log x (who 0 = callback, 1+id = task)
 //!   8 m 2*who+far d x   send_in             9 m who d x           schedule_in        10 m who 0|1 d  shutdown / restart_in d
 //!   11 m who 0 0        about to panic      12 m 0 0 0 quiet      13 m id 0 0        future of task id dropped unfinished
@@ -33,6 +33,8 @@ static LOGGING: AtomicBool = AtomicBool::new(false);
 static BUD: [AtomicU64; 4] = [AtomicU64::new(0), AtomicU64::new(0), AtomicU64::new(0), AtomicU64::new(0)];
 /// a shutdown request of the module is pending (set by the script, cleared by Module::reset)
 static REQ: [AtomicBool; 4] = [AtomicBool::new(false), AtomicBool::new(false), AtomicBool::new(false), AtomicBool::new(false)];
+/// the module's callback ended with `quiet`: its tasks end without acting when polled (cleared by Module::reset)
+static SILENT: [AtomicBool; 4] = [AtomicBool::new(false), AtomicBool::new(false), AtomicBool::new(false), AtomicBool::new(false)];
 
 fn main() {
     implrun::run_main(run_line)
@@ -169,6 +171,7 @@ fn run_callback(m: u64, p: &[Act]) {
             }
             Act::Quiet => {
                 log([12, m, 0, 0, 0]);
+                SILENT[m as usize].store(true, SeqCst);
                 if !REQ[m as usize].load(SeqCst) {
                     REQ[m as usize].store(true, SeqCst);
                     current().shutdown();
@@ -195,14 +198,22 @@ impl Drop for Guard {
     }
 }
 
-async fn run_task(m: u64, id: u64, p: Prog, guard: Guard) {
-    log([3, m, id, now(), act()]);
+async fn run_task(m: u64, id: u64, inc: u64, p: Prog, guard: Guard) {
+    if SILENT[m as usize].load(SeqCst) {
+        guard.done.set(true);
+        return;
+    }
+    log([3, m, id, now(), act() + 2 * inc]);
     for a in p {
         match a {
             Act::Sleep(d) => {
                 if d > 0 {
                     des::time::sleep(Duration::from_nanos(d)).await;
-                    log([4, m, id, now(), act()]);
+                    if SILENT[m as usize].load(SeqCst) {
+                        guard.done.set(true);
+                        return;
+                    }
+                    log([4, m, id, now(), act() + 2 * inc]);
                 }
             }
             Act::Panic => {
@@ -233,7 +244,7 @@ impl Module for ScriptModule {
         if stage == 0 {
             for (id, p) in self.cfg.tasks.iter().enumerate() {
                 let guard = Guard { m: self.m, id: id as u64, done: Cell::new(false) };
-                let h = tokio::spawn(run_task(self.m, id as u64, p.clone(), guard));
+                let h = tokio::spawn(run_task(self.m, id as u64, self.inc, p.clone(), guard));
                 current().try_join(h);
             }
             if !self.cfg.start.is_empty() {
@@ -261,6 +272,7 @@ impl Module for ScriptModule {
     fn reset(&mut self) {
         self.inc += 1;
         REQ[self.m as usize].store(false, SeqCst);
+        SILENT[self.m as usize].store(false, SeqCst);
         log([6, self.m, now(), self.inc, 0]);
     }
 }
@@ -271,6 +283,7 @@ fn simulate(mods: &[ModCfg], inj: &[(u64, u64, u64, u64)]) -> Vec<u64> {
     for m in 0..4 {
         BUD[m].store(if m < k { mods[m].bud } else { 0 }, SeqCst);
         REQ[m].store(false, SeqCst);
+        SILENT[m].store(false, SeqCst);
     }
     LOGGING.store(true, SeqCst);
 
